@@ -412,6 +412,10 @@ def main(prop, tier='quick', seed=None, replay=None):
         for p in sorted(glob.glob(os.path.join(ROOT, 'corpus', prop, '*.json'))):
             d = json.load(open(p))
             corpus.extend(d['cases'] if 'cases' in d else [d['case']])
+        from harness import hot as _hot
+        hot_info = _hot.analyse(REPO)
+        os.environ['VERIF_HOT_SIZES'] = ','.join(str(x) for x in hot_info['hot'][:4])
+        os.environ['VERIF_SRC_CHANGED'] = '1' if hot_info['changed_files'] else ''
         gen_cases = list(mod.gen(tier, rng))
         cases = corpus + gen_cases
         # de-duplicate, keeping order
@@ -510,6 +514,9 @@ def main(prop, tier='quick', seed=None, replay=None):
                 'samples': [{'case': r['case'], 'model': r['model'], 'impl': r['impl']}
                             for r in (recs[:2] + recs[len(recs) // 2:len(recs) // 2 + 2] + recs[-2:])][:6],
                 'timing': timing,
+                'change_directed': {'source_files_changed_since_model': hot_info['changed_files'],
+                                    'new_small_literals_planted': hot_info['hot'][:4],
+                                    'new_literals_too_large_to_enumerate': hot_info['big'][:8]},
             },
             'assumptions': getattr(mod, 'ASSUMPTIONS', []),
             'wall_s': round(time.time() - t_start, 2),
